@@ -211,7 +211,27 @@ def body_chain(case):
     with cut("permuted batch"):
         F4, S4 = run_radio(case, beta[perm], alt[perm], length[perm], theta[perm], L[perm], E[perm], c)
     require(F4.tobytes() == F[perm].tobytes() and S4.tobytes() == S[perm].tobytes(), f"permuting the events does not permute the fields/SNRs ({what})")
+    # one live EASRadio object whose configuration is re-tuned to another band (same low edge, other high edge, and
+    # vice versa) gives what a fresh object of that configuration gives
+    from nuspacesim.simulation.eas_radio.radio import EASRadio
+
+    hi2 = case.get("hi2", hi + 10)  # (saved regression cases predate this key)
+    hi2 = hi2 if hi2 != hi and lo < hi2 <= 1650 else (hi + 10 if hi + 10 <= 1650 else hi - 10 if hi - 10 > lo else hi)
+    if hi2 != hi:
+        live_conf = _config(case)
+        live = EASRadio(live_conf)
+        with scripted(np.full(n * 200 + 16, c)), quiet():
+            with cut("EASRadio (live object, first band)"):
+                live(beta, alt, length, theta, L, E)
+        live_conf.detector.radio.high_frequency = float(hi2)
+        with scripted(np.full(n * 200 + 16, c)), quiet():
+            with cut(f"EASRadio (live object re-tuned from {lo}-{hi} to {lo}-{hi2} MHz)"):
+                F5 = np.asarray(live(beta, alt, length, theta, L, E), dtype=np.float64)
+        F6, _ = run_radio(dict(case, band=[lo, hi2]), beta, alt, length, theta, L, E, c)
+        require(F5.shape == F6.shape and F5.tobytes() == F6.tobytes(), f"a live EASRadio object re-tuned from {lo}-{hi} MHz to {lo}-{hi2} MHz returns fields of shape {F5.shape}; a fresh object for {lo}-{hi2} MHz returns {F6.shape}" + ("" if F5.shape != F6.shape else " with different values"))
     labels = set()
+    if hi2 != hi:
+        labels.add("live_object_retuned")
     if inside.any() and (~inside).any():
         labels.add("both_sides_of_altitude_limit")
     if (lo, hi) != (30, 300):
@@ -225,6 +245,57 @@ def body_chain(case):
     if np.any(alt < 0):
         labels.add("negative_altitude")
     return labels
+
+
+def _large_cases(tier):
+    import os
+
+    seed = int(os.environ.get("VERIF_SEED", "1") or "1")
+    for n in ([2**17 + 3001] if tier == "quick" else [2**17 + 3001, 2**18 + 17, 65537]):
+        yield {"n": n, "seed": seed, "c": 0.1 + 0.07 * (seed % 11), "det": 525.0, "band": [30, 80], "nants": 10, "gain": 1.8, "iono": False, "tec": 10.0, "tec_err": 0.1}
+
+
+def body_large(case):
+    """A batch just beyond a block length: the whole batch == its parts evaluated separately == the reversed batch
+    reversed (a block loop that drops or mis-assigns its tail)."""
+    from nuspacesim.simulation.eas_radio.radio import EASRadio
+
+    n = case["n"]
+    i = np.arange(n, dtype=np.float64)
+    g = 0.6180339887498949
+    f = lambda k: (i * g * k + 0.123 * case["seed"]) % 1.0  # noqa: E731 - low-discrepancy per-event parameters
+    beta = np.radians(0.3 + 41.0 * f(1))
+    length = 10.0 ** (-1.0 + 3.0 * f(2))
+    alt = np.sqrt(RE * RE + length**2 + 2 * RE * length * np.sin(beta)) - RE
+    theta = 0.001 + 0.05 * f(3)
+    L = 600.0 + 2000.0 * f(5)
+    E = 10.0 ** (-2.0 + 4.0 * f(7))
+    c = case["c"]
+
+    def run(sl):
+        radio = EASRadio(_config(case))
+        with scripted(np.full(n * 8 + 16, c)), quiet():
+            return np.asarray(radio(beta[sl], alt[sl], length[sl], theta[sl], L[sl], E[sl]), dtype=np.float64)
+
+    with cut(f"EASRadio({n} events)"):
+        whole = run(slice(None))
+    require(whole.shape == (n, 5), f"fields have shape {whole.shape} for {n} events and 5 bins")
+    k = 2**17 if n > 2**17 else n // 2
+    with cut("EASRadio(parts)"):
+        parts = np.concatenate([run(slice(0, k)), run(slice(k, n))])
+    bad = np.where((whole != parts).any(axis=1))[0]
+    require(bad.size == 0, f"{bad.size} of {n} events get a different field when the batch is evaluated as [0:{k}] + [{k}:{n}] (first at event {int(bad[0]) if bad.size else -1})")
+    with cut("EASRadio(reversed batch)"):
+        rev = run(slice(None, None, -1))[::-1]
+    bad = np.where((whole != rev).any(axis=1))[0]
+    require(bad.size == 0, f"{bad.size} of {n} events get a different field when the batch is reversed (first at event {int(bad[0]) if bad.size else -1})")
+    # spot check against the own parametrisation at the tail
+    idx = [0, n - 1, n - 2, k, k - 1, n - 2999]
+    cand, cancel = reference_fields(case, beta[idx], alt[idx], length[idx], theta[idx], L[idx], E[idx], c)
+    for m, j in enumerate(idx):
+        ok = any(np.all(np.abs(whole[j] - ref) <= 1e-5 * np.abs(ref) + 1e-36 * E[j]) for ref in cand[m])
+        require(ok, f"event {j} of {n}: field {whole[j][:2].tolist()} differs from the own parametrisation {cand[m][0][:2].tolist()}")
+    return {f"n={n}"}
 
 
 beta_st = st.one_of(st.floats(math.radians(0.05), math.radians(42.0)), st.sampled_from([math.radians(1.0), math.radians(0.1), math.radians(42.0), math.radians(5.0)]), st.floats(math.radians(0.05), math.radians(3.0)))
@@ -270,6 +341,7 @@ SUBCHECKS = [
                 "c": st.one_of(st.floats(0.0, 1.0), st.sampled_from([0.0, 1.0, 0.5, 0.25])),
                 "kfac": st.sampled_from([2.0, 3.0, 0.5, 10.0, 7.3]),
                 "perm": st.lists(st.floats(0, 1), min_size=10, max_size=10),
+                "hi2": st.integers(1, 165).map(lambda k: 10 * k),
             }
         ),
         body_chain,
@@ -277,5 +349,14 @@ SUBCHECKS = [
         {"quick": 600, "thorough": 20000},
         doc="fields vs own parametrisation at own bin centres; SNR vs own formula; linearity in energy, sqrt(N) antennas, permutation; exact zero outside [0,10] km; finite",
         tolerances={"field_rel": "1e-6 x (1 + depth of the Gaussian tail) + stated cancellation model", "snr_rel": 1e-11, "metamorphic_rel": 1e-12},
+    ),
+    SubCheck(
+        "large_batch",
+        None,
+        body_large,
+        lambda labels: True,
+        {"quick": 1},
+        doc="a batch of 2^17+3001 events (more sizes in the thorough tier): whole == parts == reversed, tail events vs own parametrisation",
+        exhaustive=_large_cases,
     ),
 ]
